@@ -270,6 +270,7 @@ def rules(ctx):
                      [P.func('PCBO.add_constraint_eq_zero'), P.func('PCBO.add_constraint_le_zero')])
     C02.slack_register_size(ctx, 'R03.7', [P.func('PCBO.add_constraint_le_zero'), P.func('PCBO.add_constraint_ne_zero')] +
                             P.opt_funcs(['_pcbo._special_constraints_le_zero']))
+    C02.two_sided_slack(ctx, 'R03.7', P.func('PCBO.add_constraint_ne_zero'))
     C02.slack_weights(ctx, 'R03.7', list(C02.rel_methods(P, 'PCBO').values()) + P.opt_funcs(['_pcbo._special_constraints_le_zero']))
     C02.merge_discipline(ctx, 'R03.7', list(C02.rel_methods(P, 'PCBO').values()) + P.opt_funcs(
         ['_pcbo._special_constraints_eq_zero', '_pcbo._special_constraints_le_zero']))
